@@ -74,6 +74,32 @@ Proof.
   exact (C24_refines_set shipped ops s Hok H).
 Qed.
 
+(** The code after the repair of the repeated-pair defect only ([deduped]): every history that never
+    removes a pair whose value is null; pairs may be named any number of times in a command. *)
+Theorem C24_refines_set_deduped_partial : forall ops, ok_for deduped ops ->
+  exists s, run deduped init ops = Some s /\
+  (forall e k v, In (k, v) (cur_pairs s e) <-> spec_has (spec_run ops) e k v = true) /\
+  ~ In 1 (run_log deduped init ops).
+Proof.
+  intros ops Hok. destruct (C24_walk_terminates deduped ops) as [s H]. exists s. split; [assumption|].
+  exact (C24_refines_set deduped ops s Hok H).
+Qed.
+
+(** With the repeated-pair repair (any variant with [dedupe]) a command that names one pair twice
+    succeeds and the pair is current afterwards (contrast [C24_same_pair_twice_refuted]). *)
+Theorem C24_same_pair_twice_deduped : forall g, dedupe g = true -> forall ops e k v, ok_for g ops ->
+  exists s, run g init (ops ++ [TAdd e [(k, v); (k, v)]]) = Some s /\
+    In (k, v) (cur_pairs s e) /\ ~ In 1 (run_log g init (ops ++ [TAdd e [(k, v); (k, v)]])).
+Proof.
+  intros g Hd ops e k v Hok.
+  destruct (C24_walk_terminates g (ops ++ [TAdd e [(k, v); (k, v)]])) as [s H]. exists s. split; [assumption|].
+  assert (ok_for g (ops ++ [TAdd e [(k, v); (k, v)]])) as Ok.
+  { apply Forall_app. split; [assumption|]. constructor; [|constructor]. simpl. now rewrite Hd. }
+  destruct (C24_refines_set g _ s Ok H) as [A L]. split; [|exact L].
+  apply A. unfold spec_run. rewrite fold_left_app. simpl.
+  rewrite !Nat.eqb_refl. simpl. assert (jval_eqb v v = true) as -> by now apply jval_eqb_eq. reflexivity.
+Qed.
+
 (** Re-adding a deleted pair makes it current again: any variant, after any history it can take. *)
 Theorem C24_readd_after_delete : forall g ops e k v, ok_for g ops ->
   null_match g = true \/ v <> VNull ->
@@ -127,7 +153,8 @@ Proof.
   split; [vm_compute; reflexivity|]. split; [simpl; tauto|reflexivity].
 Qed.
 
-(** As shipped a command that names one new pair twice fails (IntegrityError) and adds nothing. *)
+(** Before that repair ([shipped]) a command that names one new pair twice fails (IntegrityError)
+    and adds nothing. *)
 Theorem C24_same_pair_twice_refuted :
   exists ops s, run shipped init ops = Some s /\ run_log shipped init ops = [1] /\
     cur_pairs s 0 = [] /\ spec_has (spec_run ops) 0 0 (VJ 1) = true.
@@ -160,6 +187,8 @@ Print Assumptions C24_current_iff_not_superseded.
 Print Assumptions C24_refines_set.
 Print Assumptions C24_refines_set_fixed.
 Print Assumptions C24_refines_set_shipped_partial.
+Print Assumptions C24_refines_set_deduped_partial.
+Print Assumptions C24_same_pair_twice_deduped.
 Print Assumptions C24_listing_nodup_fixed_bounded.
 Print Assumptions C24_readd_after_delete.
 Print Assumptions C24_dup_listing_refuted.
